@@ -250,6 +250,14 @@ class SStr:
         return mk(out)
     def ljust(self, n, ch=" "):
         return mk(self.chars + [ord(ch)] * max(0, n - len(self.chars)))
+    def rjust(self, n, ch=" "):
+        return mk([ord(ch)] * max(0, n - len(self.chars)) + self.chars)
+    def zfill(self, n):
+        if self.chars:
+            c0 = self.chars[0]
+            signed = (c0 in (43, 45)) if isinstance(c0, int) else Engine.cur.decide(z3.Or(lift_c(c0) == 43, lift_c(c0) == 45))
+            if signed: return mk(self.chars[:1] + [48] * max(0, n - len(self.chars)) + self.chars[1:])
+        return mk([48] * max(0, n - len(self.chars)) + self.chars)
     def startswith(self, p):
         p = SStr.of(p)
         return self[:len(p)] == p if len(p) <= len(self) else False
